@@ -2,7 +2,9 @@
 
 E2: PrefetchedCourierServer handlers invoked directly by controlled request
 threads while the shimmed prefetch thread runs under the deterministic
-scheduler.  E4/E3 (end to end through the transport stand-in with the real
+scheduler.  In the 'shutdown_supervised' scenarios the server's supervising
+entry point (start(), or run_until_shutdown() called directly) is a controlled
+thread as well and the state it leaves behind when it returns is judged.  E4/E3 (end to end through the transport stand-in with the real
 client loop) lives in mode 'e2e'.
 """
 
@@ -21,7 +23,8 @@ RULE = (
     're-initialises / stops the prefetch / shuts down after r requests, or re-initialises while a '
     'request of the first client is parked on a slow element of the first generator (gate at every '
     'element position, opened when the other initialisation is issued or has stopped the first '
-    'generator), schedule). Non-trivial = at '
+    'generator), or asks for the shutdown of a server that is driven by its own entry point - start() '
+    'or run_until_shutdown() called directly - after r requests, schedule). Non-trivial = at '
     'least 2 next-batch requests and the prefetch thread was pre-empted against a request at '
     'statement level; distinct = (configuration, schedule trace) hash')
 ASSUMPTIONS = [
@@ -30,13 +33,20 @@ ASSUMPTIONS = [
     'with two concurrent requesters on one generator each sees an increasing subsequence; exactly-once is checked on the union',
     'the server cannot tell clients apart: a request ISSUED after another client installed a new generator is served from the new generator (not flagged); only a response that itself spans the replacement is judged (no terminal marker and not a full batch, or an end marker of a queue it did not dequeue from)',
     'scheduler assumptions as in C04',
+    'shutdown_supervised: run_until_shutdown() is a public method and start() merely runs it in a thread, so both are valid ways to drive a server; the shutdown is carried out when the entry point has returned (start(): when its thread has ended); only the state at that moment and requests ISSUED afterwards are judged; a next-batch request is only issued afterwards if the transport server is still started (otherwise no request could reach the handler); "the previous one" is the generator installed when the shutdown was requested: a generator installed afterwards by an initialisation that was already in flight is recorded as an observation only',
 ]
 REQUIRED = ['schedules', 'line_preemptions', 'batches', 'undisturbed_runs', 'reinit_runs',
             'concurrent_runs', 'failure_runs', 'server_threading_shim', 'blocked_reinit_runs',
-            'requests_in_flight_at_reinit', 'generator_replaced_during_request']
+            'requests_in_flight_at_reinit', 'generator_replaced_during_request',
+            'supervised_shutdown_runs', 'direct_entry_runs', 'start_entry_runs',
+            'shutdown_requested_with_generator_unfinished']
 # Root cause key of the audited defect: _next_batch reads self._generator for
 # get_batch() and again for the terminal-marker decision without the generator lock.
 K_REINIT_MIX = 'reinit-mixes-generators-unlocked-second-read'
+# CourierServer._shutdown_server is guarded by has_started, which also requires the
+# thread that only start() creates: run_until_shutdown() called directly returns
+# without running the shutdown callback and without stopping the transport server.
+K_DIRECT = 'run-until-shutdown-direct-leaves-prefetch-running'
 CHUNK_TIMEOUT_S = {'quick': 300, 'thorough': 3000}
 
 
@@ -58,6 +68,8 @@ def variants(cfg, rng):
     out.append(dict(cfg, reinit_at=r))
     for kind in ('init', 'stop_prefetch', 'shutdown'):
       out.append(dict(cfg, r2={'kind': kind, 'after': r}))
+    for entry in ('start', 'direct'):
+      out.append(dict(cfg, r2={'kind': 'shutdown_supervised', 'after': r, 'entry': entry}))
   # a request of R1 parked on a slow element of g0 while R2 initialises g1
   if n:
     for gate_at in range(n + 1):
@@ -89,6 +101,12 @@ def scenario(case):
 
 
 def mechanism(case, kind, detail):
+  # Audited defect: the entry point was run_until_shutdown() called directly, it has
+  # returned, and the shutdown callback was never invoked (state, read by the harness).
+  if (kind in ('prefetch_running_after_shutdown_returned', 'elements_served_after_shutdown_returned')
+      and isinstance(detail, dict) and (case.get('r2') or {}).get('kind') == 'shutdown_supervised'
+      and case['r2'].get('entry') == 'direct' and detail.get('shutdown_callback_calls') == 0):
+    return K_DIRECT
   # Audited defect: only when the case has a second client initialising a generator
   # and the judged response spans the replacement of the generator object.
   if (kind in ('short_batch_without_marker', 'end_marker_of_other_generator')
@@ -129,6 +147,14 @@ def run_one(ctx, case):
   sc = scenario(case)
   ctx.count({'plain': 'undisturbed_runs', 'failure': 'failure_runs',
              'reinit': 'reinit_runs'}.get(sc, 'concurrent_runs'))
+  if sc == 'r2-shutdown_supervised':
+    ctx.count('supervised_shutdown_runs')
+    ctx.count('direct_entry_runs' if case['r2']['entry'] == 'direct' else 'start_entry_runs')
+    if info.get('unfinished_at_shutdown_request'):
+      # there was a previous generator to stop: it had not been consumed yet
+      ctx.count('shutdown_requested_with_generator_unfinished')
+  for o in info.get('observations', []):
+    ctx.observe(o, {k: v for k, v in case.items() if k != 'sched_seed'})
   if sc == 'r2-init_while_blocked':
     ctx.count('blocked_reinit_runs')
     ctx.count('requests_in_flight_at_reinit', info.get('in_flight_at_reinit', 0))
@@ -153,11 +179,15 @@ def run_chunk(ctx, spec):
   configs = [gen_config(rng) for _ in range(spec['n_cfg'])]
   mine = [c for i, c in enumerate(configs) if i % spec['chunks'] == spec['chunk']]
   srng = random.Random(spec['rseed'] * 7919 + spec['chunk'] + 17)
+  srng2 = random.Random(spec['rseed'] * 7919 + spec['chunk'] + 18)
   for cfg in mine:
     for variant in variants(cfg, srng):
+      # (the later added scenarios draw from their own generator: the older cases keep
+      # their schedules)
+      vrng = srng2 if scenario(variant) == 'r2-shutdown_supervised' else srng
       for j in range(spec['n_sched']):
         case = dict(variant)
-        case['sched_seed'] = srng.randrange(1 << 30)
+        case['sched_seed'] = vrng.randrange(1 << 30)
         r = j % 3
         case['strategy'] = 'pct' if r == 2 else 'random'
         case['p_line'] = [0.08, 0.3, 0.0][r]
